@@ -161,6 +161,23 @@ static void cancel_only(int kind){ struct S *s=calloc(1,sizeof *s); s->kind=kind
   if(atomic_load(&overl)) fail("the cancel handler of a source without event handler ran while its serial target queue was running another block: kind",kind,0,0);
   if(atomic_load(&s->cancel_runs)!=1) fail("the cancel handler of a source without event handler did not run exactly once (5 s): kind/runs",kind,atomic_load(&s->cancel_runs),0);
   dispatch_release(s->ds); dispatch_sync(s->q,^{}); dispatch_release(s->q); close(s->p[0]); close(s->p[1]); }
+// a source that has a cancellation handler and NO event handler, cancelled when the library holds no registration for it: cancelled before
+// it was activated (how 0: cancel, then activate; how 1: cancel_before + a second cancel after the activation), or - a read source on a
+// pipe - after the peer has hung up and the library has dropped the registration by itself (how 2). The cancellation handler runs exactly once.
+static void cancel_only_unreg(int kind, int how){ struct S *s=calloc(1,sizeof *s); s->kind=kind; s->scen=41+how; s->q=dispatch_queue_create("tq",NULL); dispatch_queue_set_specific(s->q,&qkey,s,NULL);
+  if(pipe(s->p)){} int wclosed=0;
+  switch(kind){ case 0: s->ds=dispatch_source_create(DISPATCH_SOURCE_TYPE_DATA_ADD,0,0,s->q); break;
+    case 1: s->ds=dispatch_source_create(DISPATCH_SOURCE_TYPE_TIMER,0,0,s->q); dispatch_source_set_timer(s->ds,dispatch_time(DISPATCH_TIME_NOW,30ll*1000000000ll),DISPATCH_TIME_FOREVER,0); break;
+    case 2: s->ds=dispatch_source_create(DISPATCH_SOURCE_TYPE_READ,(uintptr_t)s->p[0],0,s->q); break;
+    case 3: s->ds=dispatch_source_create(DISPATCH_SOURCE_TYPE_WRITE,(uintptr_t)s->p[1],0,s->q); break;
+    default: s->ds=dispatch_source_create(DISPATCH_SOURCE_TYPE_SIGNAL,SIGUSR2,0,s->q); break; }
+  dispatch_source_set_cancel_handler_f(s->ds,ch); dispatch_set_context(s->ds,s);
+  if(how<2){ dispatch_source_cancel(s->ds); usleep(500); dispatch_activate(s->ds); if(how==1) dispatch_source_cancel(s->ds); }
+  else { dispatch_activate(s->ds); usleep(3000); close(s->p[1]); wclosed=1; usleep(20000); dispatch_source_cancel(s->ds); }
+  for(int w=0; w<5000 && !atomic_load(&s->cancel_runs); w++) usleep(1000);
+  usleep(2000);
+  if(atomic_load(&s->cancel_runs)!=1) fail("the cancellation handler of a source without event handler, cancelled while the library held no registration for it, did not run exactly once (5 s): kind / how (0 cancelled before activation, 1 and again after it, 2 after a peer hang-up) / runs",kind,how,atomic_load(&s->cancel_runs));
+  dispatch_release(s->ds); dispatch_sync(s->q,^{}); dispatch_release(s->q); close(s->p[0]); if(!wclosed) close(s->p[1]); }
 // dispatch_source_cancel_and_wait called from another thread while the event handler is IN PROGRESS (the caller cannot take the source's
 // lock and has to be told when the cancellation is complete): it returns - after the handler has returned - and no invocation follows
 struct cwb { dispatch_source_t ds; _Atomic int in, out, ret, after; };
@@ -189,6 +206,7 @@ int main(int argc,char**argv){ seed=argc>1?strtoull(argv[1],0,0):1; int rounds=a
     one(kind,scen); n++; }
   _dispatch_verif_source_cb=0;
   for(int r=0;r<rounds && !viol;r++) for(int kind=0;kind<5 && !viol;kind++){ cancel_only(kind); n++; }
+  for(int r=0;r<rounds && !viol;r++) for(int kind=0;kind<5 && !viol;kind++) for(int how=0; how<3 && !viol; how++){ if(how==2 && kind!=2) continue; cancel_only_unreg(kind,how); n++; }
   for(int r=0;r<rounds && !viol;r++) for(int kind=0;kind<3 && !viol;kind++){ cw_busy(kind); n++; }
   if(!viol){ quiet_cancel(rounds*150); n+=rounds*150; }
   if(viol) printf("ORACLE VIOL seed=%llu %s\n",(unsigned long long)seed,vmsg); else printf("ORACLE ok items=%ld\n",n);
